@@ -316,6 +316,7 @@ type batchFlowActor[T any] struct {
 	upstreamCredit   int64
 	downstreamDemand int64
 	timerActive      bool
+	completing       bool // true once upstream sent streamComplete
 	schedRef         string
 	config           StageConfig
 	metrics          *stageMetrics
@@ -349,6 +350,8 @@ func (a *batchFlowActor[T]) Receive(rctx *actor.ReceiveContext) {
 
 	case *streamRequest:
 		a.downstreamDemand += msg.n
+		// Emit the batches that were held back while downstream had no demand.
+		a.drain(rctx)
 		a.maybeRequestUpstream(rctx)
 
 	case *streamElement:
@@ -373,9 +376,7 @@ func (a *batchFlowActor[T]) Receive(rctx *actor.ReceiveContext) {
 				rctx.Self(), a.maxWait, actor.WithReference(a.schedRef))
 		}
 
-		if len(a.window) >= a.maxSize {
-			a.flush(rctx)
-		}
+		a.drain(rctx)
 		a.maybeRequestUpstream(rctx)
 
 	case *batchFlush:
@@ -383,15 +384,16 @@ func (a *batchFlowActor[T]) Receive(rctx *actor.ReceiveContext) {
 		if len(a.window) > 0 {
 			a.flush(rctx)
 		}
-
-	case *streamComplete:
-		// Flush any remaining elements before propagating completion.
-		if len(a.window) > 0 {
-			a.flush(rctx)
+		if a.completing {
+			a.drain(rctx)
 		}
 
-		rctx.Tell(a.downstream, &streamComplete{subID: a.subID})
-		rctx.Shutdown()
+	case *streamComplete:
+		// Flush the remaining elements before propagating completion. When
+		// downstream has no demand left the actor stays alive and completes
+		// from the streamRequest that lets the last batch out.
+		a.completing = true
+		a.drain(rctx)
 
 	case *streamError:
 		rctx.Tell(a.downstream, msg)
@@ -407,15 +409,32 @@ func (a *batchFlowActor[T]) Receive(rctx *actor.ReceiveContext) {
 	}
 }
 
-// flush emits the current window as a single batch element to downstream,
-// provided demand is available.
+// drain emits every full batch (and, once upstream has completed, the final
+// partial one) that downstream demand allows, then propagates completion when
+// nothing is left to deliver.
+func (a *batchFlowActor[T]) drain(rctx *actor.ReceiveContext) {
+	for a.downstreamDemand > 0 && len(a.window) > 0 && (len(a.window) >= a.maxSize || a.completing) {
+		a.flush(rctx)
+	}
+	if a.completing && len(a.window) == 0 {
+		rctx.Tell(a.downstream, &streamComplete{subID: a.subID})
+		rctx.Shutdown()
+	}
+}
+
+// flush emits at most maxSize elements of the current window as a single batch
+// element to downstream, provided demand is available.
 func (a *batchFlowActor[T]) flush(rctx *actor.ReceiveContext) {
 	if a.downstreamDemand <= 0 {
 		return
 	}
-	batch := make([]T, len(a.window))
+	n := len(a.window)
+	if a.maxSize > 0 && n > a.maxSize {
+		n = a.maxSize
+	}
+	batch := make([]T, n)
 	copy(batch, a.window)
-	a.window = a.window[:0]
+	a.window = append(a.window[:0], a.window[n:]...)
 	a.seqNo++
 	a.metrics.elementsOut.Add(1)
 	rctx.Tell(a.downstream, &streamElement{
@@ -428,6 +447,9 @@ func (a *batchFlowActor[T]) flush(rctx *actor.ReceiveContext) {
 
 // maybeRequestUpstream refills upstream credit when it falls below the threshold.
 func (a *batchFlowActor[T]) maybeRequestUpstream(rctx *actor.ReceiveContext) {
+	if a.completing {
+		return
+	}
 	available := a.config.InitialDemand - a.upstreamCredit - int64(len(a.window))
 	if available <= 0 {
 		return
